@@ -47,6 +47,7 @@ type Task struct {
 	Tag        int // harness-defined (execution id); inherited by children
 	State      int
 	Site       string // last yield site
+	LastBlock  string // site of the last real blocking operation the task woke from
 	CreateSite string
 	resume     chan struct{}
 	waitMu     *MutexState
@@ -124,6 +125,7 @@ type Outcome struct {
 	TraceHash      uint64
 	Foreign        int
 	TaskOverflow   bool // more tasks than the simulator tracks: the run is abandoned
+	Quiescent      time.Time // first instant at which every task had exited
 	End            time.Time
 	ClientsEnd     time.Time
 }
@@ -150,6 +152,7 @@ type Sim struct {
 	running bool
 	foreign bool
 	clientsLive int
+	quiesced    bool
 	heldLive    int
 	liveTasks   int
 	pctChange []int
@@ -172,6 +175,8 @@ type TimerRec struct {
 	D       time.Duration
 	IsFunc  bool
 	Fired   bool // AfterFunc callbacks only
+	PendingAtQuiescence bool          // still armed when every task had exited: nobody waits for it any more
+	Remaining           time.Duration // time left then
 }
 
 // S is the simulation in progress (one per process at a time).
@@ -569,6 +574,7 @@ func BlockEnd(t *Task) {
 		return
 	}
 	t.State = StParked
+	t.LastBlock = t.Site
 	t.Site = t.Site + "+wake"
 	s.mu.Unlock()
 	s.signal()
@@ -779,6 +785,11 @@ func (s *Sim) Run() *Outcome {
 			clientsDone = true
 			s.out.ClientsEnd = time.Now()
 			graceEnd = time.Now().Add(s.cfg.Grace)
+		}
+		if clientsDone && s.liveTasks == 0 && !s.quiesced {
+			s.quiesced = true
+			s.out.Quiescent = time.Now()
+			s.snapshotTimers()
 		}
 		var run [MaxTasks]*Task
 		n := 0
@@ -1115,4 +1126,27 @@ func BlockBeginNoYield(site string) *Task {
 	s.mu.Unlock()
 	raceEnable()
 	return t
+}
+
+// snapshotTimers records which library timers are still armed now that every
+// task has exited, and re-arms them so behaviour is unchanged.
+//
+//go:norace
+func (s *Sim) snapshotTimers() {
+	raceEnable()
+	now := time.Now()
+	for _, r := range s.timers {
+		if r.T == nil {
+			continue
+		}
+		if r.T.Stop() {
+			r.PendingAtQuiescence = true
+			r.Remaining = r.Created.Add(r.D).Sub(now)
+			if r.Remaining < 0 {
+				r.Remaining = 0
+			}
+			r.T.Reset(r.Remaining)
+		}
+	}
+	raceDisable()
 }
